@@ -241,8 +241,8 @@ pub open spec fn end_txn_tree(et: EndTxn) -> T {
 }
 //@lift name=From<EndTxn>::from file=src/exop_impl/txn.rs impl="impl<'a>\s+From<EndTxn<'a>>\s+for\s+Exop\s*\{" fn=from
 //@ sub "fn from(et: EndTxn) -> Exop" => "fn end_txn_into_exop(et: EndTxn) -> Exop"
-//@ sub "let mut et_vec = vec![];" => "let mut et_vec: Vec<Tag> = vec![];"
-//@ sub "Tag::OctetString(lber::structures::OctetString {" => "Tag::OctetString(OctetString {"
+//@ sub "let mut et_vec = " => "let mut et_vec: Vec<Tag> = "
+//@ sub "lber::structures::OctetString {" => "OctetString {" count=*
 //@ sub "Vec::from(&buf[..])" => "verif_bytes_of(&buf)"
 //@ ret r
 //@ insert entry
